@@ -14,9 +14,11 @@ class YamlFormat(SingleEvaluator):
             broker=None,
             missing=False,
             show_rules=None,
-            stream=sys.stdout):
+            stream=sys.stdout,
+            render_content=False):
         super(YamlFormat, self).__init__(broker, stream=stream)
         self.missing = missing
+        self.render_content = render_content
         self.show_rules = [] if show_rules is None else show_rules
 
     def postprocess(self):
